@@ -94,6 +94,15 @@ class Terminate(Part):
         import sys
 
         self.py = sys.executable
+        # children inherit fd 2: generated failing bootstraps print their tracebacks there
+        devnull = os.open(os.devnull, os.O_WRONLY)
+        self.saved_err = os.dup(2)
+        os.dup2(devnull, 2)
+        os.close(devnull)
+
+    def teardown(self, ctx):
+        os.dup2(self.saved_err, 2)
+        os.close(self.saved_err)
 
     def strategy(self, ctx):
         return strategy()
